@@ -81,13 +81,13 @@ theorem sortedTree_get : ∀ (q : List Str) (keys : List (Str × PV)) (v : PV),
     · simp at h
     · simp at h
 
-theorem resolveAt_of_err {orc : Oracle} {dflt : Str} {fuel : Nat} {locale : Str} {p : KeyPath} {w : World} {e : String}
+theorem resolveAt_of_err {orc : Oracle} {dflt : Fallbacks} {fuel : Nat} {locale : Str} {p : KeyPath} {w : World} {e : String}
     (h : w.getValueAt locale p = .err e) : resolveAt orc dflt fuel locale p w = .err e := by
   simp [resolveAt, h]
-theorem resolveAt_of_none {orc : Oracle} {dflt : Str} {fuel : Nat} {locale : Str} {p : KeyPath} {w : World}
+theorem resolveAt_of_none {orc : Oracle} {dflt : Fallbacks} {fuel : Nat} {locale : Str} {p : KeyPath} {w : World}
     (h : w.getValueAt locale p = .ok none) : resolveAt orc dflt fuel locale p w = .ok (w, false) := by
   simp [resolveAt, h]
-theorem resolveAt_of_some {orc : Oracle} {dflt : Str} {fuel : Nat} {locale : Str} {p : KeyPath} {w : World} {v : PV}
+theorem resolveAt_of_some {orc : Oracle} {dflt : Fallbacks} {fuel : Nat} {locale : Str} {p : KeyPath} {w : World} {v : PV}
     (h : w.getValueAt locale p = .ok (some v)) : resolveAt orc dflt fuel locale p w =
       match resolvePV orc w dflt fuel [] (locale, p) locale v with
       | .err e => .err e
@@ -97,7 +97,7 @@ theorem resolveAt_of_some {orc : Oracle} {dflt : Str} {fuel : Nat} {locale : Str
   cases resolvePV orc w dflt fuel [] (locale, p) locale v <;> rfl
 
 /-- one `resolveAt`: the position `(locale, p)` is no longer needed as a cover afterwards -/
-theorem resolveAt_step (orc : Oracle) (dflt : Str) (fuel : Nat) (locale : Str) (p : KeyPath) (w : World)
+theorem resolveAt_step (orc : Oracle) (dflt : Fallbacks) (fuel : Nat) (locale : Str) (p : KeyPath) (w : World)
     (C C' : Str → Option Str → List Str → Prop) (hI : InvG w C)
     (hC : ∀ name nsk q, C name nsk q → (name = locale ∧ nsk = p.ns ∧ q = p.path) ∨ C' name nsk q) :
     (∀ s, resolveAt orc dflt fuel locale p w = .panic s → Benign s) ∧
@@ -248,7 +248,7 @@ theorem mergedPath_eq (p : KeyPath) :
       simp only
       cases Key.new ((Str.stripSuffix "_ordinal".toList base).getD base) <;> rfl
 
-theorem resolveAll_stage (orc : Oracle) (dflt : Str) (fuel : Nat) :
+theorem resolveAll_stage (orc : Oracle) (dflt : Fallbacks) (fuel : Nat) :
     ∀ (items : List (Str × KeyPath)) (w : World), InvG w (Cov items) → (∀ x ∈ items, Findable w x) →
       (∀ s, resolveAll orc dflt fuel items w = .panic s → Benign s) ∧
       (∀ w', resolveAll orc dflt fuel items w = .ok w' → InvG w' (fun _ _ _ => False))
